@@ -77,7 +77,9 @@ def scenarios(rng, n, heading_share=0.0):
             inp = items_arg(merged_items(items)[0]).encode()
         else:
             inp = doc
-        case = "mscn %s %d %s %s %s %s %s %s %s - %s 0 %s" % (entry, procs, cancel, rfail, budget, cbfail, seed, slow, snap_arg(pre), hx(b"tgt"), hx(inp))
+        # file extensions: the file/directory decision is shared state of the mkdir and dry-run workers
+        exts = rng.choice(["-", "-", "2e676f", "2e676f+61"])
+        case = "mscn %s %d %s %s %s %s %s %s %s %s %s 0 %s" % (entry, procs, cancel, rfail, budget, cbfail, seed, slow, snap_arg(pre), exts, hx(b"tgt"), hx(inp))
         fmt_bad = bool(nbad and kind == "format" and not entry.startswith("r") and surely_bad and not heading)
         faultless = (nbad == 0 and "verify" not in entry and not heading)
         out.append((case, entry, cancel, rfail, nbad, nroots, len(doc), "fmt" if fmt_bad else "clean" if faultless else "other"))
@@ -136,13 +138,13 @@ def run(ck, rng):
         nroots = rng.choice([20, 40, 80])
         items = []
         for r in range(nroots):
-            items += [(1, b"r%d" % r), (2, b"a"), (2, b"b")]
+            items += [(1, b"r%d" % r), (2, b"a.go"), (2, b"b")]
         doc = spell(items, plain_spelling(items))
-        entry = rng.choice(["out-d", "out-d", "out-j", "out-dry", "walk"])
-        budget = str(rng.randint(0, len(doc))) if entry != "walk" else "-"
+        entry = rng.choice(["out-d", "out-d", "out-j", "out-dry", "walk", "mkdir", "mkdir", "verify"])
+        budget = str(rng.randint(0, len(doc))) if entry.startswith("out") else "-"
         cbf = str(rng.randint(0, 3 * nroots)) if entry == "walk" else "-"
-        case = "mscn %s %d - - %s %s %d %s %s - %s 0 %s" % (entry, rng.choice([2, 4, 16]), budget, cbf, rng.choice([0, rng.randint(1, 10 ** 6)]), rng.choice("01"),
-                                                          snap_arg([(b"tgt", "d")]), hx(b"tgt"), hx(doc))
+        case = "mscn %s %d - - %s %s %d %s %s %s %s 0 %s" % (entry, rng.choice([2, 4, 16]), budget, cbf, rng.choice([0, rng.randint(1, 10 ** 6)]), rng.choice("01"),
+                                                          snap_arg([(b"tgt", "d")]), rng.choice(["-", "2e676f", "2e676f+62"]), hx(b"tgt"), hx(doc))
         rs.append((case, entry, "-", "-", 1, nroots, len(doc), "other"))
     env = dict(os.environ, GORACE="halt_on_error=1 exitcode=66")
     rimpl, rcrashes = run_impl(rexe, [s[0] for s in rs], per_case_timeout=60.0, env=env, max_abnormal=6)
